@@ -62,14 +62,42 @@ class _Node:
         return iter(self._a)
 
 
+class _Root:
+    """handle.root: membership test by child name, attribute access to children"""
+    def __init__(self, nodes):
+        self._nodes = nodes
+
+    def __contains__(self, name):
+        return str(name).lstrip('/') in self._nodes
+
+    def __getattr__(self, name):
+        try:
+            return self.__dict__['_nodes'][name]
+        except KeyError:
+            raise AttributeError(name)
+
+    def __iter__(self):
+        return iter([self._nodes[k] for k in sorted(self._nodes)])
+
+
 class _Handle:
     def __init__(self, filename, mode):
         self.filename = filename
         if mode == 'w':
             STORE[filename] = {}
+        elif mode == 'a' and filename not in STORE:
+            STORE[filename] = {}            # append mode creates a missing file and KEEPS the nodes of an existing one
         if filename not in STORE:
             raise IOError('``%s`` does not exist' % filename)
         self.nodes = STORE[filename]
+        self.root = _Root(self.nodes)
+
+    def remove_node(self, where='/', name=None, recursive=False):
+        if name is None:
+            name = getattr(where, 'name', None) or str(where).lstrip('/')
+        if name not in self.nodes:
+            raise KeyError('group ``/`` does not have a child named ``%s``' % name)
+        del self.nodes[name]
 
     def __enter__(self):
         return self
@@ -86,6 +114,9 @@ class _Handle:
             arr = funcs.np_zeros(shape, dtype=getattr(dt, 'base', dt))
         else:
             arr = _np.zeros(shape, dtype=getattr(dt, 'base', dt))
+        if name in self.nodes:
+            import tables as real
+            raise real.NodeError('group ``/`` already has a child node named ``%s``' % name)
         n = _Node(name, arr)
         self.nodes[name] = n
         return n
